@@ -490,6 +490,54 @@ func gen(g *hx.Gen) {
 		g.Stat("seq." + mode)
 		g.Emit("seq mode=%s K=%s ops=%s", mode, kTable(sel), strings.Join(ops, ";"))
 	}
+	// real clock, also in the quick tier: 1-second lifetimes against one 1.5 s sleep ("must stay" keys have
+	// lifetimes >= 100 s), so the outcome does not depend on scheduling; exec runs them in parallel.
+	nRT := 28
+	if g.Thorough() {
+		nRT = 200
+	}
+	for i := 0; i < nRT; i++ {
+		sel := pickSel(r)
+		cm := func() string { return hx.Hex(genComment(r)) }
+		add := func(k, life int) string { return fmt.Sprintf("a.%d.%d.0.0.%s", k, life, cm()) }
+		sign := func(k int) string { return fmt.Sprintf("s.%d.0.%s", k, hx.Hex(r.Bytes(4))) }
+		k := r.Intn(len(sel))
+		stay := r.PickInt(100, 1000, 4294967295)
+		var ops []string
+		if r.Chance(1, 3) { // other keys around it, so the replaced / expiring entry is not alone in the slice
+			for j := range sel {
+				if j != k && r.Bool() {
+					ops = append(ops, add(j, r.PickInt(0, 0, stay)))
+				}
+			}
+		}
+		switch i % 4 {
+		case 0: // lifetime, then re-add without: permanent
+			ops = append(ops, add(k, 1), add(k, 0), "y.1500", "L", sign(k), "S")
+			g.Stat("rt.readd-clears-lifetime")
+		case 1: // permanent, then re-add with lifetime 1: expires
+			ops = append(ops, add(k, 0), add(k, 1), "y.1500", "L", sign(k), "S")
+			g.Stat("rt.readd-sets-lifetime")
+		case 2: // lifetime 1, then re-add with a long lifetime: stays
+			ops = append(ops, add(k, 1), add(k, stay), "y.1500", "L", sign(k), "S")
+			g.Stat("rt.readd-extends-lifetime")
+		default: // several keys, some expire: the swap-delete loop against the real clock
+			ops = nil
+			for j := range sel {
+				ops = append(ops, add(j, r.PickInt(1, 1, 0, stay)))
+			}
+			if r.Bool() {
+				ops = append(ops, "L")
+			}
+			ops = append(ops, "y.1500", r.PickStr("L", "S", sign(k)), "L")
+			for j := range sel {
+				ops = append(ops, sign(j))
+			}
+			g.Stat("rt.expire-some-of-several")
+		}
+		g.Stat("seq.realtime")
+		g.Emit("seq mode=%s K=%s ops=%s", []string{"direct", "wire", "wirep"}[r.Intn(3)], kTable(sel), strings.Join(ops, ";"))
+	}
 	if g.Thorough() { // real one-second lifetimes
 		for i := 0; i < 48; i++ {
 			sel := pickSel(r)
@@ -644,6 +692,9 @@ func doOp(ag agent.ExtendedAgent, t []ident, op string) string {
 		return cls(err)
 	case "z":
 		time.Sleep(time.Duration(atoi(f[1])) * time.Second)
+		return "z"
+	case "y":
+		time.Sleep(time.Duration(atoi(f[1])) * time.Millisecond)
 		return "z"
 	}
 	panic("bad op " + op)
